@@ -51,6 +51,35 @@ class Analysis:
             out[a] = frozenset(substitute(t, self.alias) for t in v)
         out["root"] = V(ROOT)
         self.init_probe = it
+        out.update(self._init_tables())
+        return out
+
+    def _init_tables(self):
+        """instance attributes the constructor binds to a literal table whose entries are constants or other attributes of
+        self (`self._claims_th = {"object_pid": (self.object_pid_condition_th, self.object_locked_pids_th), ...}`): known
+        by structure, the entries standing for the attributes they name"""
+        def entry(e):
+            if isinstance(e, ast.Attribute) and isinstance(e.value, ast.Name) and e.value.id == "self":
+                return V(("selfattr", e.attr))
+            if isinstance(e, ast.Constant):
+                return V(C(e.value))
+            if isinstance(e, (ast.Tuple, ast.List)):
+                parts = [entry(x) for x in e.elts]
+                if all(p_ is not None for p_ in parts):
+                    return V(("tuple", tuple(parts)))
+            return None
+
+        out = {}
+        init = self.p.func(f"{CLS}.__init__")
+        for n in ast.walk(init.node):
+            if isinstance(n, ast.Assign) and len(n.targets) == 1 and isinstance(n.targets[0], ast.Attribute) and isinstance(n.targets[0].value, ast.Name) \
+                    and n.targets[0].value.id == "self" and isinstance(n.value, ast.Dict) and n.value.keys \
+                    and all(isinstance(k, ast.Constant) for k in n.value.keys):
+                vals = [entry(v) for v in n.value.values]
+                name = n.targets[0].attr
+                if all(v is not None for v in vals) and name not in PATH_ATTRS and name not in out:
+                    if any(any(tag(t) in ("selfattr", "tuple") for t in v) for v in vals):
+                        out[name] = V(("dictlit", tuple((C(k.value), v) for k, v in zip(n.value.keys, vals))))
         return out
 
     def run(self, entry, mode="th", inline_api=True, overrides=None, tagk=None, assume=None, relative_root=False) -> Interp:
@@ -114,10 +143,10 @@ class Analysis:
         """lock operations written as `with self.<cond>` plus those on locals that can only
         hold condition attributes (discovered while interpreting the public entry points)"""
         ops = {(o.func.qual, o.node.lineno): o for o in self.lockops}
-        for it in self.all_api_runs(("th",)):
+        for it in self.all_api_runs():
             for k, o in it.dynamic_ops.items():
                 ops.setdefault(k, o)
-        return [ops[k] for k in sorted(ops)]
+        return [ops[k] for k in sorted(ops, key=repr)]
 
     def problems(self):
         out = []
